@@ -807,12 +807,13 @@ pub(crate) fn find_text_regex_select_expressions<'a, 'b>(
         let foundexpressions: Vec<_> = if let Some(regexset) = precompiledset {
             regexset.matches(text).into_iter().collect()
         } else {
-            RegexSet::new(expressions.iter().map(|x| x.as_str()))
-                .map_err(|e| {
-                    StamError::RegexError(e, "Parsing regular expressions in search_text()")
-                })?
-                .matches(text)
-                .into_iter()
+            //we can not build a RegexSet from the pattern strings here: options set on the
+            //expressions via RegexBuilder (case_insensitive, multi_line, ...) are not part of
+            //as_str() and would be lost, test the compiled expressions themselves instead
+            expressions
+                .iter()
+                .enumerate()
+                .filter_map(|(i, re)| if re.is_match(text) { Some(i) } else { None })
                 .collect()
         };
         foundexpressions
